@@ -1268,7 +1268,13 @@ void AbstractDOMParser::XMLDecl(const   XMLCh* const version
                                 , const XMLCh* const actualEncStr)
 {
     fDocument->setXmlStandalone(XMLString::equals(XMLUni::fgYesString, standalone));
-    fDocument->setXmlVersion(version);
+    // The scanner has reported an unsupported version already; setXmlVersion()
+    // would answer it with a DOMException thrown through the scanner (and,
+    // while a schema document is being loaded, out of a SAX parse).
+    if (version == 0 || *version == 0
+        || XMLString::equals(version, XMLUni::fgVersion1_0)
+        || XMLString::equals(version, XMLUni::fgVersion1_1))
+        fDocument->setXmlVersion(version);
     fDocument->setXmlEncoding(encoding);
     fDocument->setInputEncoding(actualEncStr);
 }
